@@ -247,3 +247,347 @@ Proof.
            unfold wider1, vkey, vmin, vmax in *. cbn in *. lia.
         -- exists out, tailv. repeat split; [|exact Htail]. rewrite firstn_all2 in H1 by lia. exact H1.
 Qed.
+
+(* ------------------------------------------------------------------ from "fits" to "is matched" *)
+(* the runs of a string under a key function f, as pieces *)
+Lemma rle_aux_pieces (f : Z -> Z) s : forall c k (pre : str),
+  (forall x, In x pre -> f x = c) -> Z.of_nat (length pre) = k -> 1 <= k ->
+  exists pieces, pre ++ s = List.concat pieces /\
+    Forall2 (fun p rn => Z.of_nat (length p) = snd rn /\ forall x, In x p -> f x = fst rn) pieces (rle_aux c k (map f s)).
+Proof.
+  induction s as [|y s IH]; intros c k pre Hpre Hk Hk1; cbn [map rle_aux].
+  - exists [pre]. cbn [List.concat]. rewrite !app_nil_r. split; [reflexivity|].
+    constructor; [split; [exact Hk|exact Hpre]|constructor].
+  - destruct (Z.eqb_spec (f y) c) as [Heq|Hne].
+    + destruct (IH c (k + 1) (pre ++ [y])) as [pieces [Hc Hf]].
+      * intros x Hx. apply in_app_or in Hx as [Hx|[<-|[]]]; [apply Hpre; exact Hx|exact Heq].
+      * rewrite app_length. cbn [length]. lia.
+      * lia.
+      * exists pieces. split; [rewrite <- Hc, <- app_assoc; reflexivity|exact Hf].
+    + destruct (IH (f y) 1 [y]) as [pieces [Hc Hf]].
+      * intros x [<-|[]]. reflexivity.
+      * reflexivity.
+      * lia.
+      * exists (pre :: pieces). split; [cbn [List.concat]; rewrite <- Hc; reflexivity|].
+        constructor; [split; [exact Hk|exact Hpre]|exact Hf].
+Qed.
+
+Lemma rle_pieces (f : Z -> Z) s :
+  exists pieces, s = List.concat pieces /\
+    Forall2 (fun p rn => Z.of_nat (length p) = snd rn /\ forall x, In x p -> f x = fst rn) pieces (run_length_encode (map f s)).
+Proof.
+  destruct s as [|y s]; [exists []; split; [reflexivity|constructor]|].
+  cbn [map run_length_encode]. destruct (rle_aux_pieces f s (f y) 1 [y]) as [pieces [Hc Hf]].
+  - intros x [<-|[]]. reflexivity.
+  - reflexivity.
+  - lia.
+  - exists pieces. split; [exact Hc|exact Hf].
+Qed.
+
+Lemma map_id_local (s : str) : map (fun x => x) s = s.
+Proof. induction s as [|a s IH]; [reflexivity|]. cbn [map]. rewrite IH. reflexivity. Qed.
+
+Lemma count_ok_plusify m M n : m <= n <= M -> 1 <= n ->
+  count_ok m (if Z.leb (M - m) max_vrle_range then Some M else None) (Z.to_nat n).
+Proof.
+  intros H H1. destruct (Z.leb (M - m) max_vrle_range); cbn [count_ok]; [rewrite Z2Nat.id by lia; exact H|].
+  right. lia.
+Qed.
+
+Lemma count_ok_plusify_empty M : 0 <= M ->
+  count_ok 0 (if Z.leb (M - 0) max_vrle_range then Some M else None) O.
+Proof. intro H. destruct (Z.leb (M - 0) max_vrle_range); cbn [count_ok]; [cbn; lia|left; reflexivity]. Qed.
+
+(* a string whose keyed RLE fits the VRLE is matched by the plusified fragments, when each piece's
+   characters satisfy the predicate of the fragment with that key *)
+Lemma fits_matches ct out e (fixed : bool) (f : Z -> Z) s v :
+  fits (run_length_encode (map f s)) v ->
+  (forall x key, In x s -> f x = key ->
+     match atom_pred ct out e (if fixed then ARaw key else AClass key) return Prop with Some p => p x = true | None => False end) ->
+  matches_frags ct out e (map (plusify fixed) v) s.
+Proof.
+  intros (v1 & v2 & -> & Hfit & Hopt) Hsem.
+  destruct (rle_pieces f s) as [pieces [Hs Hp]]. rewrite map_app.
+  pose proof (run_length_encode_pos (map f s)) as Hpos.
+  assert (Hin : forall p, In p pieces -> forall x, In x p -> In x s).
+  { intros p Hp0 x Hx. rewrite Hs. apply in_concat. exists p. split; assumption. }
+  rewrite Hs. rewrite <- (app_nil_r (List.concat pieces)). apply matches_frags_app.
+  - clear Hs Hopt. revert v1 Hfit Hin Hpos.
+    induction Hp as [|p rn ps rs [Hlen Hkey] _ IH]; intros v1 Hfit Hin Hpos; inversion Hfit as [|? y ? v1' Hy Hrest]; subst.
+    + constructor.
+    + inversion Hpos as [|? ? Hrn Hrs]; subst. cbn [List.concat map]. constructor.
+      * destruct y as [[c m] M]. destruct Hy as [Hk Hr]. unfold vkey, vmin, vmax in Hk, Hr. cbn [fst snd] in Hk, Hr.
+        unfold frag_matches, plusify. cbn [f_atom f_min f_max].
+        assert (Hp1 : forall x, In x p -> match atom_pred ct out e (if fixed then ARaw c else AClass c) return Prop with Some q => q x = true | None => False end).
+        { intros x Hx. apply Hsem; [apply (Hin p (or_introl eq_refl)); exact Hx|]. rewrite (Hkey x Hx). exact Hk. }
+        destruct (atom_pred ct out e (if fixed then ARaw c else AClass c)) as [q|] eqn:Eq.
+        -- split; [apply forallb_forall; exact Hp1|].
+           replace (length p) with (Z.to_nat (snd rn)) by (rewrite <- Hlen; apply Nat2Z.id).
+           apply count_ok_plusify; lia.
+        -- destruct fixed; discriminate.
+      * apply IH; [exact Hrest| |exact Hrs]. intros p' Hp' x Hx. apply (Hin p' (or_intror Hp')). exact Hx.
+  - clear -Hopt. induction Hopt as [|[[c m] M] l [Hm HM] _ IH]; [constructor|]. cbn [map].
+    change (@nil Z) with (@nil Z ++ @nil Z). constructor; [|exact IH].
+    unfold vmin, vmax in Hm, HM. cbn [fst snd] in Hm, HM. subst m.
+    unfold frag_matches, plusify. cbn [f_atom f_min f_max].
+    destruct fixed; cbn [atom_pred]; (split; [reflexivity|apply count_ok_plusify_empty; exact HM]).
+Qed.
+
+(* ------------------------------------------------------------------ fine classes *)
+(* the one fact needed about the character tables: ASCII digits are decimal digits *)
+Definition table_ok (ct : chartab) : Prop := forall c, is_09 c = true -> ct_decimal ct c = true.
+
+Lemma cat_sem_D ct e c : cat_sem ct false e cD c = ct_decimal ct c. Proof. reflexivity. Qed.
+Lemma cat_sem_a ct e c : cat_sem ct false e ca c = is_lower c. Proof. reflexivity. Qed.
+Lemma cat_sem_A ct e c : cat_sem ct false e cA c = is_upper c. Proof. reflexivity. Qed.
+Lemma cat_sem_B ct e c : cat_sem ct false e cB c = is_upper c || memc c e. Proof. reflexivity. Qed.
+Lemma cat_sem_UC ct e c : cat_sem ct false e cUC c = (is_word ct c && negb (memc c (el_exc e))) || memc c (el_inc e).
+Proof. reflexivity. Qed.
+Lemma cat_sem_UM ct e c : cat_sem ct false e cUM c =
+  match e with
+  | [] => is_word ct c && negb (is_09 c) && negb (Z.eqb c 95)
+  | _ => (is_word ct c && negb (is_09 c) && negb (memc c (el_exc e))) || memc c (el_inc e)
+  end.
+Proof. reflexivity. Qed.
+
+(* every character of an alphanumeric group belongs to the fine class rexpy assigns to it *)
+Theorem fine_class_sound ct e c : table_ok ct ->
+  cat_sem ct false e cUC c = true -> cat_sem ct false e (fine_class ct e c) c = true.
+Proof.
+  intros Htab Huc. unfold fine_class.
+  destruct (ct_decimal ct c) eqn:Ed; [rewrite cat_sem_D; exact Ed|].
+  destruct (is_lower c) eqn:El; [rewrite cat_sem_a; exact El|].
+  destruct (is_upper c) eqn:Eu; [rewrite cat_sem_A; exact Eu|].
+  destruct (memc c e) eqn:Em; [rewrite cat_sem_B, Em; apply orb_true_r|].
+  assert (H09 : is_09 c = false).
+  { destruct (is_09 c) eqn:E9; [|reflexivity]. rewrite (Htab c E9) in Ed. discriminate. }
+  rewrite cat_sem_UC in Huc. rewrite cat_sem_UM. rewrite H09. cbn [negb].
+  destruct e as [|e0 e'].
+  - cbn [el_exc el_inc has_us memc existsb filter orb] in Huc. rewrite orb_false_r in Huc.
+    apply andb_true_iff in Huc as [Hw Hx]. rewrite Hw. cbn [andb].
+    unfold memc in Hx. cbn [existsb] in Hx. rewrite orb_false_r in Hx. exact Hx.
+  - apply orb_true_iff in Huc as [Huc|Huc]; [|rewrite Huc; apply orb_true_r].
+    apply andb_true_iff in Huc as [Hw Hx]. rewrite Hw, Hx. reflexivity.
+Qed.
+
+(* ------------------------------------------------------------------ the accumulator invariant *)
+Record pos_ok (ct : chartab) (e : str) (v : vfrag) (g : str) : Prop := {
+  po_class : forallb (cat_sem ct false e (vf_code v)) g = true;
+  po_count : count_ok (vf_min v) (vf_max v) (length g) }.
+
+Definition acc_inv (ct : chartab) (e : str) (G : list str) (a : acc) : Prop :=
+  strings_inv G (a_strings a, a_n a) /\
+  (forall x, In x (a_chars a) <-> exists g, In g G /\ In x g) /\
+  tri_inv (map (fun g => run_length_encode (map (fine_class ct e) g)) G) (a_fc a) /\
+  tri_inv (map (fun g => run_length_encode g) G) (a_c a).
+
+Lemma acc0_inv ct e : acc_inv ct e [] acc0.
+Proof.
+  unfold acc_inv, acc0. cbn [a_strings a_n a_chars a_fc a_c map]. repeat split.
+  - intros _ g [].
+  - intros [].
+  - intros [g [[] _]].
+Qed.
+
+Lemma acc_step_inv ct e vl cap code G a g : 1 <= cap ->
+  acc_inv ct e G a -> acc_inv ct e (G ++ [g]) (acc_step ct e vl cap code a g).
+Proof.
+  intros Hcap (Hs & Hc & Hfc & Hcc).
+  assert (Hstr := acc_step_strings ct e vl cap code a g).
+  unfold acc_inv. split; [|split].
+  - rewrite Hstr. apply strings_step_inv; assumption.
+  - unfold acc_step. destruct (rle_fc_c ct e vl g code (a_fc a) (a_c a)) as [fc c]. cbn [a_chars].
+    intro x. rewrite add_chars_In, Hc. split.
+    + intros [Hx|[g0 [Hg0 Hx]]]; [exists g; split; [apply in_or_app; right; left; reflexivity|exact Hx]|
+                                   exists g0; split; [apply in_or_app; left; exact Hg0|exact Hx]].
+    + intros [g0 [Hg0 Hx]]. apply in_app_or in Hg0 as [Hg0|[<-|[]]]; [right; exists g0; split; assumption|left; exact Hx].
+  - unfold acc_step. destruct (rle_fc_c ct e vl g code (a_fc a) (a_c a)) as [fc c] eqn:Er. cbn [a_fc a_c].
+    unfold rle_fc_c in Er. rewrite !map_app. cbn [map].
+    destruct (negb (Z.eqb code cUC) || (is_false (a_fc a) && is_false (a_c a))).
+    + injection Er as <- <-. split; exact I.
+    + injection Er as <- <-. split.
+      * apply expand_or_falsify_inv; [apply run_length_encode_pos|exact Hfc].
+      * apply expand_or_falsify_inv; [apply run_length_encode_pos|exact Hcc].
+Qed.
+
+(* ------------------------------------------------------------------ refine_one covers its groups *)
+Lemma In_forallb {T} (p : T -> bool) l x : forallb p l = true -> In x l -> p x = true.
+Proof. intros H Hx. rewrite forallb_forall in H. apply H. exact Hx. Qed.
+
+Lemma tri_nonempty_some t l : tri_nonempty t = Some l -> t = TSome l.
+Proof. destruct t as [| |[|x v]]; cbn; intro H; try discriminate. injection H as <-. reflexivity. Qed.
+
+Lemma refine_rest_covers ct mp e n v a G :
+  table_ok ct -> acc_inv ct e G a -> (forall g, In g G -> pos_ok ct e v g) ->
+  forall g, In g G -> matches_frags ct false e (fst (refine_rest ct mp e n v a)) g.
+Proof.
+  intros Htab (Hs & Hc & Hfc & Hcc) Hok g Hg.
+  assert (Hchars : forall x, In x g -> In x (a_chars a)) by (intros x Hx; apply Hc; exists g; split; assumption).
+  destruct (Hok g Hg) as [Hcls Hcnt].
+  assert (Hplain : forall code, (forall x, In x g -> cat_sem ct false e code x = true) ->
+            matches_frags ct false e [{| f_atom := AClass code; f_min := vf_min v; f_max := vf_max v |}] g).
+  { intros code Hcode. apply matches_frags_single. unfold frag_matches. cbn [f_atom f_min f_max atom_pred].
+    split; [apply forallb_forall; exact Hcode|exact Hcnt]. }
+  assert (Hplain_c : matches_frags ct false e [{| f_atom := AClass (vf_code v); f_min := vf_min v; f_max := vf_max v |}] g).
+  { apply Hplain. intros x Hx. eapply In_forallb; eassumption. }
+  unfold refine_rest.
+  set (general := match List.find _ (general_order e) with Some code => _ | None => _ end).
+  assert (Hgeneral : matches_frags ct false e (fst general) g).
+  { subst general. destruct (List.find _ (general_order e)) as [code|] eqn:Ef; cbn [fst]; [|exact Hplain_c].
+    apply List.find_some in Ef as [_ Ef]. apply Hplain. intros x Hx. eapply In_forallb; [exact Ef|apply Hchars; exact Hx]. }
+  assert (Hsingle : forall ch, a_chars a = [ch] ->
+            matches_frags ct false e [{| f_atom := ALit [ch]; f_min := vf_min v; f_max := vf_max v |}] g).
+  { intros ch Ech. apply matches_frags_single. unfold frag_matches. cbn [f_atom f_min f_max atom_pred].
+    split; [|exact Hcnt]. apply forallb_forall. intros x Hx. specialize (Hchars x Hx). rewrite Ech in Hchars.
+    destruct Hchars as [<-|[]]. apply Z.eqb_refl. }
+  assert (Hmain : matches_frags ct false e
+            (fst (if Z.eqb (vf_code v) cUC
+                  then match tri_nonempty (a_c a) with
+                       | Some rlec => (map (plusify true) rlec, n)
+                       | None => match tri_nonempty (a_fc a) with
+                                 | Some rlefc => if Z.leb (n + Z.of_nat (length rlefc) - 1) max_groups
+                                                 then (map (plusify false) rlefc, n + Z.of_nat (length rlefc) - 1)
+                                                 else general
+                                 | None => general
+                                 end
+                       end
+                  else if Z.eqb (vf_code v) cP && Z.leb (Z.of_nat (length (a_chars a))) mp
+                       then ([{| f_atom := ABracket (a_chars a); f_min := vf_min v; f_max := vf_max v |}], n)
+                       else ([{| f_atom := AClass (vf_code v); f_min := vf_min v; f_max := vf_max v |}], n))) g).
+  { destruct (Z.eqb_spec (vf_code v) cUC) as [Ecode|Ecode].
+    - destruct (tri_nonempty (a_c a)) as [rlec|] eqn:Erc.
+      + cbn [fst]. apply tri_nonempty_some in Erc. rewrite Erc in Hcc. destruct Hcc as [_ Hfit].
+        apply (fits_matches ct false e true (fun x => x)).
+        * rewrite map_id_local. apply Hfit. apply in_map_iff. exists g. split; [reflexivity|exact Hg].
+        * intros x key _ <-. cbn [atom_pred]. unfold raw_sem. rewrite Z.eqb_refl. apply orb_true_r.
+      + destruct (tri_nonempty (a_fc a)) as [rlefc|] eqn:Erf; [|exact Hgeneral].
+        destruct (Z.leb _ max_groups); [|exact Hgeneral]. cbn [fst].
+        apply tri_nonempty_some in Erf. rewrite Erf in Hfc. destruct Hfc as [_ Hfit].
+        apply (fits_matches ct false e false (fine_class ct e)).
+        * apply Hfit. apply in_map_iff. exists g. split; [reflexivity|exact Hg].
+        * intros x key Hx <-. cbn [atom_pred]. apply fine_class_sound; [exact Htab|].
+          rewrite <- Ecode. eapply In_forallb; eassumption.
+    - destruct (Z.eqb (vf_code v) cP && _); cbn [fst]; [|exact Hplain_c].
+      apply matches_frags_single. unfold frag_matches. cbn [f_atom f_min f_max atom_pred].
+      split; [|exact Hcnt]. apply forallb_forall. intros x Hx. apply memc_In. apply Hchars. exact Hx. }
+  destruct (a_chars a) as [|ch1 [|ch2 chs]] eqn:Ech; [exact Hmain|cbn [fst]; apply Hsingle; reflexivity|exact Hmain].
+Qed.
+
+(* every group string seen at a position is matched by the fragments refined for that position *)
+Theorem refine_one_covers ct mp e n v a G :
+  table_ok ct -> acc_inv ct e G a -> (forall g, In g G -> pos_ok ct e v g) ->
+  forall g, In g G -> matches_frags ct false e (fst (refine_one ct mp e n v a)) g.
+Proof.
+  intros Htab Hinv Hok g Hg. unfold refine_one.
+  destruct (a_strings a) as [|s0 [|s1 ss]] eqn:Es; try (eapply refine_rest_covers; eassumption).
+  cbn [fst]. apply matches_frags_single.
+  destruct Hinv as (Hs & _).
+  assert (g = s0).
+  { eapply (strings_single G (a_strings a, a_n a)); [exact Hs|cbn [fst]; exact Es|exact Hg]. }
+  subst g. unfold frag_matches. cbn [f_atom f_min f_max].
+  destruct s0 as [|c0 [|c1 s']]; cbn [atom_pred].
+  - repeat split; reflexivity.
+  - split; [cbn [forallb]; rewrite Z.eqb_refl; reflexivity|cbn [count_ok length]; lia].
+  - repeat split; reflexivity.
+Qed.
+
+(* ------------------------------------------------------------------ all positions, all examples *)
+Definition column (i : nat) (groups : list (list str)) : list str := map (fun gs => nth i gs []) groups.
+
+Lemma column_app i g1 g2 : column i (g1 ++ g2) = column i g1 ++ column i g2.
+Proof. unfold column. apply map_app. Qed.
+
+Lemma zip_with_length {A B C} (f : A -> B -> C) l1 l2 : length (zip_with f l1 l2) = Nat.min (length l1) (length l2).
+Proof. revert l2; induction l1 as [|a l1 IH]; intros [|b l2]; cbn [zip_with length Nat.min]; try reflexivity. rewrite IH. reflexivity. Qed.
+
+Lemma zip_with_nth {A B C} (f : A -> B -> C) l1 l2 i da db dc :
+  (i < length l1)%nat -> (i < length l2)%nat -> nth i (zip_with f l1 l2) dc = f (nth i l1 da) (nth i l2 db).
+Proof.
+  revert l2 i; induction l1 as [|a l1 IH]; intros [|b l2] i H1 H2; cbn [length] in *; try lia.
+  destruct i as [|i]; cbn [zip_with nth]; [reflexivity|]. apply IH; lia.
+Qed.
+
+Lemma nth_map_const {A B} (d : B) (l : list A) i : nth i (map (fun _ => d) l) d = d.
+Proof. revert i; induction l as [|a l IH]; intros [|i]; cbn [map nth]; try reflexivity. apply IH. Qed.
+
+Section Fold.
+  Variables (ct : chartab) (e : str) (vl : bool) (cap : Z) (vrle : list vfrag).
+  Hypothesis Hcap : 1 <= cap.
+
+  Definition fold_step (accs : list acc) (gs : list str) : list acc :=
+    zip_with (fun va g => acc_step ct e vl cap (vf_code (fst va)) (snd va) g) (combine vrle accs) gs.
+
+  Definition accs_ok (groups : list (list str)) (accs : list acc) : Prop :=
+    length accs = length vrle /\
+    forall i, (i < length vrle)%nat -> acc_inv ct e (column i groups) (nth i accs acc0).
+
+  Lemma fold_step_ok groups accs gs : accs_ok groups accs -> length gs = length vrle ->
+    accs_ok (groups ++ [gs]) (fold_step accs gs).
+  Proof.
+    intros [Hlen Hinv] Hgs. unfold accs_ok, fold_step. split.
+    - rewrite zip_with_length, combine_length. lia.
+    - intros i Hi. rewrite column_app. cbn [column map].
+      pose proof (zip_with_nth (fun (va : vfrag * acc) (g : str) => acc_step ct e vl cap (vf_code (fst va)) (snd va) g)
+                               (combine vrle accs) gs i ((0, 0, None), acc0) [] acc0) as Hz.
+      rewrite Hz by (rewrite ?combine_length; lia). clear Hz.
+      rewrite combine_nth by (symmetry; exact Hlen). cbn [fst snd]. apply acc_step_inv; [exact Hcap|apply Hinv; exact Hi].
+  Qed.
+
+  Lemma fold_ok groups : (forall gs, In gs groups -> length gs = length vrle) ->
+    accs_ok groups (fold_left fold_step groups (map (fun _ => acc0) vrle)).
+  Proof.
+    induction groups as [|gs groups IH] using rev_ind; intro Hlen.
+    - cbn [fold_left]. split; [apply map_length|]. intros i Hi. cbn [column map].
+      rewrite nth_map_const. apply acc0_inv.
+    - rewrite fold_left_app. cbn [fold_left]. apply fold_step_ok.
+      + apply IH. intros g Hg. apply Hlen. apply in_or_app. left. exact Hg.
+      + apply Hlen. apply in_or_app. right. left. reflexivity.
+  Qed.
+End Fold.
+
+Lemma refine_all_covers ct mp e : forall vs accs n gs,
+  length accs = length vs -> length gs = length vs ->
+  (forall i m, (i < length vs)%nat ->
+     matches_frags ct false e (fst (refine_one ct mp e m (nth i vs (0, 0, None)) (nth i accs acc0))) (nth i gs [])) ->
+  matches_frags ct false e (refine_all ct mp e n vs accs) (List.concat gs).
+Proof.
+  induction vs as [|v vs IH]; intros accs n gs Ha Hg Hall.
+  - destruct gs; [|discriminate]. destruct accs; [|discriminate]. constructor.
+  - destruct accs as [|a accs]; [discriminate|]. destruct gs as [|g gs]; [discriminate|].
+    cbn [refine_all List.concat]. destruct (refine_one ct mp e n v a) as [fs n'] eqn:Er.
+    apply matches_frags_app.
+    + specialize (Hall O n ltac:(cbn; lia)). cbn [nth] in Hall. rewrite Er in Hall. exact Hall.
+    + apply IH; [cbn in Ha; lia|cbn in Hg; lia|]. intros i m Hi. apply (Hall (S i) m). cbn [length]. lia.
+Qed.
+
+(* Forall2 over positions as an index statement *)
+Lemma Forall2_nth {A B} (R : A -> B -> Prop) l1 l2 da db i :
+  Forall2 R l1 l2 -> (i < length l1)%nat -> R (nth i l1 da) (nth i l2 db).
+Proof.
+  intro H. revert i. induction H as [|a b l1 l2 Hab _ IH]; intros i Hi; cbn [length] in Hi; [lia|].
+  destruct i; cbn [nth]; [exact Hab|apply IH; lia].
+Qed.
+
+Lemma Forall2_length_local {A B} (R : A -> B -> Prop) l1 l2 : Forall2 R l1 l2 -> length l1 = length l2.
+Proof. induction 1; cbn; congruence. Qed.
+
+(* The refinement of a VRLE covers every example it was built from: if each example's group strings
+   (whatever split the regular-expression engine chose) satisfy the coarse fragment they were matched
+   by, then the concatenation of the groups is matched by the refined fragments. *)
+Theorem refine_covers ct mp e vl cap vrle (groups : list (list str)) :
+  table_ok ct -> 1 <= cap ->
+  (forall gs, In gs groups -> Forall2 (pos_ok ct e) vrle gs) ->
+  let accs := fold_left (fold_step ct e vl cap vrle) groups (map (fun _ => acc0) vrle) in
+  forall gs, In gs groups ->
+    matches_frags ct false e (refine_all ct mp e (Z.of_nat (length vrle)) vrle accs) (List.concat gs).
+Proof.
+  intros Htab Hcap Hok accs gs Hgs.
+  assert (Hlens : forall gs0, In gs0 groups -> length gs0 = length vrle).
+  { intros gs0 H0. symmetry. eapply Forall2_length_local. apply Hok. exact H0. }
+  destruct (fold_ok ct e vl cap vrle Hcap groups Hlens) as [Hlen Hinv]. fold accs in Hlen, Hinv.
+  apply refine_all_covers; [exact Hlen|apply Hlens; exact Hgs|].
+  intros i m Hi. eapply refine_one_covers; [exact Htab|apply Hinv; exact Hi| |].
+  - intros g Hg. unfold column in Hg. apply in_map_iff in Hg as [gs0 [<- Hgs0]].
+    apply (Forall2_nth (pos_ok ct e) vrle gs0 (0, 0, None) [] i (Hok gs0 Hgs0) Hi).
+  - unfold column. apply in_map_iff. exists gs. split; [reflexivity|exact Hgs].
+Qed.
